@@ -182,6 +182,9 @@ def run_shard(spec, R):
               _one(R, darsia, rng, cur, shape, cnt, ov, case_no)
 
 
+LIVE = {}
+
+
 def _one(R, darsia, rng, cur, shape, cnt, ov, case_no):
     import contextlib
     import io
@@ -223,6 +226,18 @@ def _one(R, darsia, rng, cur, shape, cnt, ov, case_no):
                     return
                 R.guarded("assemble", lambda: P.assemble())
             R.check(np.array_equal(base.img, arr), "base_unchanged", dict(cur))
+            # two live Patches objects: the previous case's object is assembled again now that another one exists
+            if LIVE.get("prev") is not None and case_no % 4 == 0:
+                keep = dict(cur)
+                cur.clear()
+                cur.update(LIVE["prev"][1])
+                cur["what"] = "assembled again after another Patches object was built"
+                with contextlib.redirect_stdout(io.StringIO()):
+                    R.guarded("assemble", lambda: LIVE["prev"][0].assemble())
+                R.count("two_live_patches_objects")
+                cur.clear()
+                cur.update(keep)
+            LIVE["prev"] = (P, dict(cur))
             if case_no % 3 == 1:
                 # history on the base image: it is moved in place (same shape and dimensions) and patched again,
                 # the construction contract judges the second object as well
